@@ -16,7 +16,10 @@ from core import q
 warnings.simplefilter('ignore')
 
 REQUIRED = ['treeOK_of_disciplined', 'tree_discipline', 'run_discipline', 'leaf_call_keeps_shutter', 'nRepeat_bounds', 'pass_first',
-            'pass_step', 'pass_last', 'pass_across', 'schedule_length', 'single_file_view', 'flatten_own_events', 'wall_loop_depths']
+            'pass_step', 'pass_last', 'pass_across', 'schedule_length', 'single_file_view', 'flatten_own_events', 'wall_loop_depths',
+            'trenchBlock_disciplined', 'blocksFrom_disciplined', 'farcallBody_disciplined', 'farcallBody_pre', 'farcallFile_disciplined',
+            'shipped_headers_disciplined', 'loops_wallLoop', 'farcallBody_loops', 'matchWallLoop_body', 'matchWallLoop_bodyD',
+            'bedBlock_disciplined', 'bedsFrom_disciplined', 'leafLine_xy', 'leafFile_isLeafXY']
 RULE = ('1..3 trench columns (or U-trench columns with 0..2 pillars) are dug with the real API from layouts of straight / tilted / S-bent '
         'guides (some leaving a neck that splits when inset), with random box counts, box height, z offset <= 0, deltaz, floor spacing, '
         'speeds, power-axis settings and base folders, and exported by the real TrenchWriter / UTrenchWriter.pgm() under random compiler '
@@ -257,6 +260,17 @@ def check_case(ctx, case):
                         setattr(tc, k, v)
                 if not case.get('same_writer'):
                     W = (UTrenchWriter if case['utrench'] else TrenchWriter)(cols, dirname=case['dirname'], **cfg)
+            # record what the writer hands to export_array2d (the leaf files): the call is passed on unchanged
+            leaf_calls = []
+            orig_export = W.export_array2d
+
+            def rec_export(filename, x, y, speed, forced_deceleration=False, _o=orig_export):
+                dec = forced_deceleration
+                dec = [bool(dec)] if isinstance(dec, (bool, np.bool_)) else [bool(v) for v in list(dec)]
+                leaf_calls.append((pathlib.Path(filename), [float(v) for v in np.asarray(x, dtype=np.float64)],
+                                   [float(v) for v in np.asarray(y, dtype=np.float64)], speed, dec))
+                return _o(filename=filename, x=x, y=y, speed=speed, forced_deceleration=forced_deceleration)
+            W.export_array2d = rec_export
             W.pgm(verbose=False)
         except core.InfraError:
             raise
@@ -283,29 +297,68 @@ def check_case(ctx, case):
 
     # ---- the compile-side model of the call file of every plain column (Model/TrenchProg.lean, farcallFile) against the real file
     far = []
-    if not case['utrench']:
+    if True:
         texts = {n: t for n, t in files}
         for ci, tc in enumerate(cols):
             name = f'FARCALL{ci + 1:03}.pgm'
-            if name not in texts:
-                continue
             trs = list(tc)
+            if name not in texts or not trs:
+                continue
             colj = {'index': ci, 'nboxz': int(tc.nboxz), 'n_repeat': int(tc.n_repeat), 'base_folder': str(tc.base_folder),
                     'inits': [[q(float(t.xborder[0])), q(float(t.yborder[0]))] for t in trs],
                     'h_box': q(float(tc.h_box)), 'z_off': q(float(tc.z_off)), 'deltaz': q(float(tc.deltaz)),
                     'speed_closed': q(float(tc.speed_closed)),
-                    'u': [q(float(tc.u[0])), q(float(tc.u[-1]))] if tc.u else None}
+                    'u': [q(float(tc.u[0])), q(float(tc.u[-1]))] if tc.u else None,
+                    'upper': bool(case['utrench']),
+                    'beds': [[q(float(np.array(b.block.exterior.coords.xy[0])[0])), q(float(np.array(b.block.exterior.coords.xy[1])[0]))]
+                             for b in (getattr(tc, 'trenchbed', []) if case['utrench'] else [])]}
             far.append((ci, name, len(reqs)))
             reqs.append({'op': 'ctl.run', 'text': texts[name], 'instrs': True})
             reqs.append({'op': 'c06.farcall', 'cfg': mcfg, 'col': colj})
+
+    # ---- the leaf files against the model of export_array2d (Model/TrenchProg.lean, leafFile), from the recorded arguments
+    leaves = []
+    texts_l = {n: t for n, t in files}
+    for fn, xs_, ys_, speed, dec in leaf_calls:
+        try:
+            rel = str(fn.relative_to(root))
+        except ValueError:
+            continue
+        if rel not in texts_l or isinstance(speed, (list, tuple)) or not xs_:
+            continue
+        leaves.append((rel, len(reqs)))
+        reqs.append({'op': 'ctl.run', 'text': texts_l[rel], 'instrs': True})
+        reqs.append({'op': 'c06.leaf', 'cfg': mcfg, 'pts': [[q(a), q(b)] for a, b in zip(xs_, ys_)], 'speed': q(float(speed)), 'decel': dec})
+
+    # ---- MAIN.pgm is the compiler session `farcall_list(call files)` without rotation (Gcode model, C03's farcallList theorems)
+    main_off = None
+    if 'MAIN.pgm' in dict(files):
+        main_off = len(reqs)
+        items_ = [[str(pathlib.Path(tc.base_folder) / f'FARCALL{i + 1:03}.pgm'), 2] for i, tc in enumerate(cols)]
+        reqs.append({'op': 'ctl.run', 'text': dict(files)['MAIN.pgm'], 'instrs': True})
+        reqs.append({'op': 'gc.session', 'cfg': dict(mcfg, aero=q(0.0)), 'ops': [{'k': 'farcall_list', 'items': items_}], 'instrs': True})
 
     def judge(res):
         for m in res:
             if 'driver_error' in m:
                 raise core.InfraError(m['driver_error'])
+        if main_off is not None:
+            d = instr_diff(res[main_off].get('instrs') or [], res[main_off + 1]['prog'].get('instrs') or [], 1e-9)
+            ctx.count('main.model', 'compared')
+            if d:
+                ctx.fail('corr', 'main', {**info, 'file': 'MAIN.pgm'}, f'MAIN.pgm differs from the model session farcall_list(call files): {d}', 'main:model')
+        for rel, off in leaves:
+            impl_l, model_l = res[off], res[off + 1]
+            ctx.count('leaf.model', 'error' if model_l['err'] else 'compared')
+            if model_l['err']:
+                continue
+            scale = 4.0 + abs(float(cfg['shift_origin'][0])) + abs(float(cfg['shift_origin'][1]))
+            d = instr_diff(impl_l.get('instrs') or [], model_l['instrs'], scale * 2.0 ** -20 + 2e-6)
+            if d:
+                ctx.fail('corr', 'leaf', {**info, 'file': rel}, f'{rel}: the leaf file differs from the model of export_array2d: {d}', 'leaf:model')
         for ci, name, off in far:
             impl_f, model_f = res[off], res[off + 1]
-            ctx.count('farcall.model', 'error' if model_f['err'] else 'compared')
+            ctx.count('farcall.model', ('error' if model_f['err'] else 'compared') + ('/U' if case['utrench'] else '/plain'))
             if model_f['err']:
                 continue
             scale = 4.0 + abs(float(cfg['shift_origin'][0])) + abs(float(cfg['shift_origin'][1]))
